@@ -1,4 +1,4 @@
-import NutilsVerif.Model.C19Src
+import NutilsVerif.Model.C19
 /-!
 # C19 — how `_Substring._find` scans: level-0 positions, skipping balanced text
 -/
